@@ -111,6 +111,7 @@ type Gen struct {
 type storeRec struct {
 	base    string
 	baseVal ssa.Value
+	whole   bool // a whole-struct store (several field heaps, nested bases): only usable for loop-local reasoning
 }
 
 type deferRec struct {
@@ -491,6 +492,9 @@ func (g *Gen) addrOf(v ssa.Value) Addr {
 func (g *Gen) loadValueIn(st State, a Addr, t types.Type, depth int) string {
 	if stt, ok := structOf(t); ok {
 		if !g.structTransparent(t) || depth > 3 {
+			if a.Base != "" {
+				return g.loadIn(st, Addr{Heap: "O_" + typeKey(t), Base: a.Base, Sort: "Int"})
+			}
 			return ""
 		}
 		srt := g.structSort(t)
@@ -516,13 +520,8 @@ func (g *Gen) storeValue(a Addr, t types.Type, val string, depth int) {
 	if stt, ok := structOf(t); ok {
 		if !g.structTransparent(t) || depth > 3 {
 			// opaque (foreign) struct value: one token per object, 0 = the zero value
-			h := "O_" + typeKey(t)
-			tok := "0"
-			if val != g.zero(t) {
-				tok = g.newConst("otok", "Int")
-				g.assume(fmt.Sprintf("(not (= %s 0))", tok))
-			}
-			g.store(Addr{Heap: h, Base: a.Base, Sort: "Int"}, tok)
+			// the Int value of an opaque struct IS its token (0 = the zero value)
+			g.store(Addr{Heap: "O_" + typeKey(t), Base: a.Base, Sort: "Int"}, val)
 			return
 		}
 		srt := g.structSort(t)
